@@ -19,7 +19,9 @@
 package didjwk
 
 import (
+	"crypto/ecdsa"
 	"encoding/base64"
+	"errors"
 	"fmt"
 	"github.com/nuts-foundation/nuts-node/vdr/resolver"
 	"reflect"
@@ -78,6 +80,10 @@ func (w Resolver) Resolve(id did.DID, _ *resolver.ResolveMetadata) (*did.Documen
 	publicRawKey, err := jwk.PublicRawKeyOf(key)
 	if err != nil {
 		return nil, nil, fmt.Errorf("failed to get PublicRawKeyOf(key): %w", err)
+	}
+	// the JWK library does not expect coordinates that are not a point on the curve (e.g. over-long values)
+	if ecKey, ok := publicRawKey.(*ecdsa.PublicKey); ok && !ecKey.Curve.IsOnCurve(ecKey.X, ecKey.Y) {
+		return nil, nil, errors.New("invalid JWK: public key is not a point on its curve")
 	}
 
 	// Create a new DID verification method.
